@@ -209,16 +209,44 @@ ABSENT_OK = (LookupError, AttributeError)
 _SKIPPED = object()
 
 
+_CLASS_HIT = {'identifier': 'identifier_name',
+              'non_identifier': 'non_identifier_name',
+              'keyword': 'keyword_name', 'dunder': 'dunder_name'}
+_PROBES = tuple((n, name_class(n), n.isidentifier())
+                for n in NAMES + FOREIGN)
+
+
+def describe(root):
+    """Named shortcuts a tree exercises (from its description)."""
+    hits = {}
+
+    def hit(name):
+        hits[name] = hits.get(name, 0) + 1
+
+    for node in all_nodes(root):
+        if len(node.path) == 2:
+            hit('depth3_map')
+        if not node.entries:
+            hit('empty_map')
+        for name, entry in node.entries.items():
+            hit(_CLASS_HIT[name_class(name)])
+            if entry[0] == 'm':
+                hit('nested_map')
+            elif entry[2] != 'h':
+                hit('layered_handle')
+                hit('shadowed_handle' if entry[2] == 's'
+                    else 'lower_only_handle')
+    return hits
+
+
 class Checker:
     def __init__(self, root, snapshot, phase):
         self.root = root
         self.snap = snapshot
         self.phase = phase      # 'fresh' | 'after_mutation_attempts'
         self.calls = 0
-        self.hits = {}
-
-    def hit(self, name, n=1):
-        self.hits[name] = self.hits.get(name, 0) + n
+        self.attr_calls = 0
+        self.absent_calls = 0
 
     def fail(self, clause, detail, **features):
         if self.phase != 'fresh':
@@ -228,123 +256,132 @@ class Checker:
     def compare(self):
         self.visit(self.root, self.snap, self.snap, self.snap)
 
+    @staticmethod
+    def where(node):
+        return '/'.join(node.path) or '<root>'
+
     def visit(self, node, s_item, s_attr, s_get):
         """s_item / s_attr / s_get: the sub-snapshot of ``node`` reached by
         chained [] / getattr / get (s_attr None: a name on the way is not an
         identifier)."""
         m = node.real
-        where = '/'.join(node.path) or '<root>'
-        if len(node.path) == 2:
-            self.hit('depth3_map')
-        if not node.entries:
-            self.hit('empty_map')
-        for name, entry in node.entries.items():
-            ncls = name_class(name)
+        entries = node.entries
+        fresh = self.phase == 'fresh'
+        for name, entry in entries.items():
             is_handle = entry[0] == 'h'
-            kind = entry[2] if is_handle else 'm'
-            feat = dict(name=ncls, node=kind)
-            self.hit({'identifier': 'identifier_name',
-                      'non_identifier': 'non_identifier_name',
-                      'keyword': 'keyword_name',
-                      'dunder': 'dunder_name'}[ncls])
-            if kind in ('s', 'u'):
-                self.hit('layered_handle')
-                self.hit('shadowed_handle' if kind == 's'
-                         else 'lower_only_handle')
             if is_handle:
                 handle = entry[1]
-                expected = handle()
                 # the source map is the yardstick of the statement
                 src = m[name]
-                full = '/'.join(node.path + (name,))
-                if (src is not expected or self.root.real[full] is not src
-                        or m.get(name) is not handle):
-                    raise HarnessError(
-                        f'ResourceMap itself disagrees with the tree '
-                        f'description at {full!r} (C11 territory)')
+                if fresh:
+                    full = '/'.join(node.path + (name,))
+                    if (src is not handle() or m.get(name) is not handle
+                            or self.root.real[full] is not src):
+                        raise HarnessError(
+                            f'ResourceMap itself disagrees with the tree '
+                            f'description at {full!r} (C11 territory)')
             # -- item access
             self.calls += 1
             try:
                 v_item = s_item[name]
             except Exception as exc:
                 self.fail('item_access',
-                          f'snapshot[{where}][{name!r}] raised '
-                          f'{type(exc).__name__}: {exc}', **feat)
+                          f'snapshot[{self.where(node)}][{name!r}] raised '
+                          f'{type(exc).__name__}: {exc}',
+                          name=name_class(name),
+                          node=entry[2] if is_handle else 'm')
             if is_handle and v_item is not src:
                 self.fail('item_access',
-                          f'snapshot[{where}][{name!r}] is {v_item!r}, '
-                          f'map gives {src!r}', **feat)
+                          f'snapshot[{self.where(node)}][{name!r}] is '
+                          f'{v_item!r}, map gives {src!r}',
+                          name=name_class(name), node=entry[2])
             # -- attribute access
             v_attr = _SKIPPED
             if s_attr is not None and name.isidentifier():
-                self.calls += 1
-                self.hit('attr_walk')
+                self.attr_calls += 1
                 try:
                     v_attr = getattr(s_attr, name)
                 except Exception as exc:
                     self.fail('attr_access',
-                              f'getattr(snapshot[{where}], {name!r}) raised '
-                              f'{type(exc).__name__}: {exc}', **feat)
+                              f'getattr(snapshot[{self.where(node)}], '
+                              f'{name!r}) raised {type(exc).__name__}: {exc}',
+                              name=name_class(name),
+                              node=entry[2] if is_handle else 'm')
                 if is_handle and v_attr is not src:
                     self.fail('attr_access',
-                              f'getattr(snapshot[{where}], {name!r}) is '
-                              f'{v_attr!r}, map gives {src!r}', **feat)
+                              f'getattr(snapshot[{self.where(node)}], '
+                              f'{name!r}) is {v_attr!r}, map gives {src!r}',
+                              name=name_class(name), node=entry[2])
             # -- get
             self.calls += 1
             try:
                 v_get = s_get.get(name)
             except Exception as exc:
                 self.fail('get_access',
-                          f'snapshot[{where}].get({name!r}) raised '
-                          f'{type(exc).__name__}: {exc}', **feat)
-            if is_handle and v_get is not handle:
-                self.fail('get_access',
-                          f'snapshot[{where}].get({name!r}) is {v_get!r}, '
-                          f'map.get gives {handle!r}', **feat)
-            if not is_handle:
-                sub = entry[1]
-                for form, v in (('item_access', v_item),
-                                ('attr_access', v_attr),
-                                ('get_access', v_get)):
-                    if v is _SKIPPED:
-                        continue
-                    if isinstance(v, (desper.Handle, Res)) or v is None:
-                        self.fail(form, f'{where}/{name} is a sub-map but '
-                                  f'the snapshot yields {v!r}', **feat)
-                self.hit('nested_map')
-                self.visit(sub, v_item,
-                           None if v_attr is _SKIPPED else v_attr, v_get)
+                          f'snapshot[{self.where(node)}].get({name!r}) '
+                          f'raised {type(exc).__name__}: {exc}',
+                          name=name_class(name),
+                          node=entry[2] if is_handle else 'm')
+            if is_handle:
+                if v_get is not handle:
+                    self.fail('get_access',
+                              f'snapshot[{self.where(node)}].get({name!r}) '
+                              f'is {v_get!r}, map.get gives {handle!r}',
+                              name=name_class(name), node=entry[2])
+                continue
+            for form, v in (('item_access', v_item), ('attr_access', v_attr),
+                            ('get_access', v_get)):
+                if v is _SKIPPED:
+                    continue
+                if v is None or isinstance(v, (desper.Handle, Res)):
+                    self.fail(form, f'{self.where(node)}/{name} is a '
+                              f'sub-map but the snapshot yields {v!r}',
+                              name=name_class(name), node='m')
+            self.visit(entry[1], v_item,
+                       None if v_attr is _SKIPPED else v_attr, v_get)
 
         # -- names the map does not have
-        for name in NAMES + FOREIGN:
-            if name in node.entries:
+        for name, ncls, ident in _PROBES:
+            if name in entries:
                 continue
-            ncls = name_class(name)
-            if m.get(name) is not None:
+            if fresh and m.get(name) is not None:
                 raise HarnessError(f'{name!r} unexpectedly present in map')
-            forms = [('item', lambda: s_item[name])]
-            if s_attr is not None and name.isidentifier():
-                forms.append(('attr', lambda: getattr(s_attr, name)))
-            forms.append(('get', lambda: s_get.get(name)))
-            for form, thunk in forms:
-                self.calls += 1
-                self.hit('absent_name')
+            self.absent_calls += 2
+            try:
+                got = s_item[name]
+            except ABSENT_OK:
+                pass
+            except Exception as exc:
+                self.absent_fail(node, 'item', name, ncls, exc=exc)
+            else:
+                self.absent_fail(node, 'item', name, ncls, got=got)
+            if ident and s_attr is not None:
+                self.absent_calls += 1
                 try:
-                    got = thunk()
+                    got = getattr(s_attr, name)
                 except ABSENT_OK:
-                    continue
+                    pass
                 except Exception as exc:
-                    self.fail('absent_name_fails',
-                              f'{form} access of absent {name!r} on '
-                              f'snapshot[{where}] raised '
-                              f'{type(exc).__name__}: {exc}',
-                              form=form, name=ncls)
-                if form == 'get' and got is None:
-                    continue        # mirrors ResourceMap.get: admissible
-                self.fail('absent_name_fails',
-                          f'{form} access of absent {name!r} on '
-                          f'snapshot[{where}] returned {got!r}',
-                          form=form, name=ncls)
+                    self.absent_fail(node, 'attr', name, ncls, exc=exc)
+                else:
+                    self.absent_fail(node, 'attr', name, ncls, got=got)
+            try:
+                got = s_get.get(name)
+            except ABSENT_OK:
+                pass
+            except Exception as exc:
+                self.absent_fail(node, 'get', name, ncls, exc=exc)
+            else:
+                if got is not None:     # None mirrors ResourceMap.get
+                    self.absent_fail(node, 'get', name, ncls, got=got)
+
+    def absent_fail(self, node, form, name, ncls, exc=None, got=None):
+        what = (f'raised {type(exc).__name__}: {exc}' if exc is not None
+                else f'returned {got!r}')
+        self.fail('absent_name_fails',
+                  f'{form} access of absent {name!r} on '
+                  f'snapshot[{self.where(node)}] {what}',
+                  form=form, name=ncls)
 
 
 def sub_snapshots(node, snap):
@@ -357,6 +394,7 @@ def sub_snapshots(node, snap):
 
 def mutation_attempts(root, snap, chk):
     sentinel = Res('intruder')
+    chk.mutations = 0
     for node, s in sub_snapshots(root, snap):
         where = '/'.join(node.path) or '<root>'
         level = 'root' if not node.path else 'sub'
@@ -369,8 +407,7 @@ def mutation_attempts(root, snap, chk):
                    + [('handle_names', '_handle_names')])
         for what, name in targets:
             for verb in ('set', 'del'):
-                chk.calls += 1
-                chk.hit('mutation_attempt')
+                chk.mutations += 1
                 try:
                     if verb == 'set':
                         value = frozenset() if what == 'handle_names' \
@@ -437,9 +474,15 @@ def run_case(case):
     mutation_attempts(root, snap, chk)
     again = Checker(root, snap, 'after_mutation_attempts')
     again.compare()
-    chk.calls += again.calls
+    hits = describe(root)
+    hits['mutation_attempt'] = chk.mutations
+    hits['absent_name'] = chk.absent_calls
+    if chk.attr_calls:
+        hits['attr_walk'] = chk.attr_calls
     if style == 'A':
-        chk.hit('append_style_layer')
+        hits['append_style_layer'] = 1
+    calls = (chk.calls + chk.attr_calls + chk.absent_calls + chk.mutations
+             + again.calls + again.attr_calls + again.absent_calls + 1)
     # information only (not demanded by the statement, see run()):
     for node, s in sub_snapshots(root, snap):
         try:
@@ -447,8 +490,9 @@ def run_case(case):
         except AttributeError:
             continue
         if isinstance(d, dict):
-            chk.hit('info_snapshot_has_plain_writable___dict__')
-    return {'calls': chk.calls + 1, 'hits': chk.hits, 'key': case}
+            hits['info_snapshot_has_plain_writable___dict__'] = hits.get(
+                'info_snapshot_has_plain_writable___dict__', 0) + 1
+    return {'calls': calls, 'hits': hits, 'key': case}
 
 
 def parts(tier):
